@@ -168,7 +168,17 @@ func buildHistory(h *history) (*built, error) {
 			}
 		}
 		if fs.mode == "lazyss" && len(ssSamples) > 0 {
-			frag.AddSamples(ssSamples, ssFirst)
+			// in two calls when there are several samples (the second call meets a fragment that already holds samples)
+			if k := len(ssSamples) / 2; k > 0 && (len(ssSamples)+fi)%2 == 0 {
+				frag.AddSamples(ssSamples[:k], ssFirst)
+				var d uint64
+				for _, x := range ssSamples[:k] {
+					d += uint64(x.Dur)
+				}
+				frag.AddSamples(ssSamples[k:], ssFirst+d)
+			} else {
+				frag.AddSamples(ssSamples, ssFirst)
+			}
 		}
 		// extra boxes
 		for _, ch := range fs.extras {
